@@ -50,11 +50,14 @@ def parseCall (j : Json) : R (Call × Nat) := do
     let (o, t) ← parseOp j
     return (.op o, t)
 
+/-- `bar_hyp`: the hypotheses of `Props.C16.bar_width_current_config` decided on the configuration in
+force when the call was made (`barHypB`, `Props.C16.bar_hyp_decides`): [single characters, width bound] -/
 def jCEvent (e : CEvent) : Json :=
   Json.mkObj [("w", jStrs e.res.writes),
               ("progress", jNat e.res.st.step),
               ("max", jNat e.res.st.max),
-              ("err", match e.res.err with | none => .null | some x => .str x.name)]
+              ("err", match e.res.err with | none => .null | some x => .str x.name),
+              ("bar_hyp", .arr #[.bool (singleCharsB e.cfg), .bool (barWidthOkB e.cfg)])]
 
 def jEvent (e : Event) : Json :=
   Json.mkObj [("w", jStrs e.res.writes),
